@@ -179,7 +179,7 @@ PROPS = {
     },
     "C09": {
         "v_units": ["range.py", "range_lemmas.py"],
-        "r": [("widgets", lambda n: n.startswith("range."))],
+        "r": [("widgets", lambda n: n.startswith("range.")), ("composer_leaves", lambda n: "internal" in n)],
         "claim": "layout of the range gadget for EVERY width 0..=256 (loop invariants, no bound): range_check_even emits exactly "
                  "rce_rows(nb) (ceil(nb/8) selected rows, accumulators on D,C,B,A most-significant first, unselected carrier row, closing "
                  "equality), range_check adds the lower/top split for odd widths, component_range_bits::<B> == range_check(B), "
@@ -202,7 +202,7 @@ PROPS = {
     },
     "C10": {
         "v_units": ["logic.py"],
-        "r": [("widgets", lambda n: n.startswith("logic."))],
+        "r": [("widgets", lambda n: n.startswith("logic.")), ("composer_leaves", lambda n: "internal" in n)],
         "claim": "(a) layout for EVERY pair count P <= 127 (loop invariant): append_logic_component::<P> emits P selected rows "
                  "(q_logic = q_c = +1 AND / -1 XOR; accumulators shifted by one row on A,B,D; product wire on C), the unselected carrier row, "
                  "and for P > 0 the two truncation bindings bind_truncation_split(a, left_acc, 2P), (b, right_acc, 2P); returns the out "
@@ -218,7 +218,7 @@ PROPS = {
     },
     "C11": {
         "v_units": ["truncate.py"],
-        "r": [("gadgets", lambda n: n.startswith("bits.component_decomposition"))],
+        "r": [("gadgets", lambda n: n.startswith("bits.component_decomposition")), ("composer_leaves", lambda n: "internal" in n)],
         "claim": "layout of truncation for EVERY width N <= 254: component_truncate::<N> emits exactly trunc_rows(N) = range check of the "
                  "low part on N bits, then bind_truncation_split (range check of the high part on 255-N bits, recomposition row "
                  "2^N*high + low, closing equality with the input) and assert_canonical_truncation (diff = r_high - high range-checked, "
@@ -236,7 +236,7 @@ PROPS = {
         "not_covered": ["component_decomposition for N outside {1,2,8,252,256}", "semantic lemma for truncation / decomposition"],
     },
     "C12": {
-        "r": [("widgets", lambda n: n.startswith("curve_addition.")), ("gadgets", lambda n: n.startswith("point."))],
+        "r": [("widgets", lambda n: n.startswith("curve_addition.")), ("gadgets", lambda n: n.startswith("point.")), ("composer_leaves", lambda n: "internal" in n)],
         "claim": "(a) curve-addition widget: prover quotient term, linearisation and verifier commitment term equal the twisted-Edwards "
                  "(a = -1) addition law in polynomial form: x1*y2 - w, (w + y1 x2) - x3 (1 + d w y1 x2), (y1 y2 + x1 x2) - y3 (1 - d w y1 x2); "
                  "(b) gadget wiring as composer-operation sequences: add_point_gates (selected row (x1,y1,x2,y2), carrier row (x3,y3,0,x1*y2), "
@@ -250,7 +250,7 @@ PROPS = {
         "not_covered": ["group law (A4, A5)"],
     },
     "C13": {
-        "r": [("gadgets", lambda n: n.startswith("point.append") or n.startswith("point.assert") or n.startswith("point.reject") or "mul_generator" in n or n == "point.add_point_gates")],
+        "r": [("gadgets", lambda n: n.startswith("point.append") or n.startswith("point.assert") or n.startswith("point.reject") or "mul_generator" in n or n == "point.add_point_gates"), ("composer_leaves", lambda n: "internal" in n)],
         "claim": "entry-point behaviour as exit structure + composer-operation sequence: append_point / append_public_point / "
                  "assert_equal_public_point return Err(JubJubPointDegenerate) exactly when Z == 0, before anything is emitted and before any "
                  "projecting call; append_constant_point additionally Err(JubJubPointNotTorsionFree) unless on-curve AND torsion-free; "
@@ -267,7 +267,7 @@ PROPS = {
         "not_covered": ["the subgroup iff (A4-A6)"],
     },
     "C14": {
-        "r": [("widgets", lambda n: n.startswith("fixed_base.")), ("gadgets", lambda n: n.startswith("fixed_base."))],
+        "r": [("widgets", lambda n: n.startswith("fixed_base.")), ("gadgets", lambda n: n.startswith("fixed_base.")), ("composer_leaves", lambda n: "internal" in n)],
         "claim": "(a) fixed-base widget: extract_bit, check_bit_consistency, prover quotient term, linearisation and verifier commitment "
                  "term equal the protocol's fixed-base row identity (bit in {-1,0,1}; xy_alpha = bit*xy_beta; Edwards addition of the "
                  "selected table point to the accumulator); (b) gadget: assert_canonical_jubjub_scalar = two 252-bit range checks around "
